@@ -126,16 +126,40 @@ pub fn stage(id: &str, ctx: &Ctx) -> ScnResult {
         ("C15", Tier::Thorough) => (0..23).map(|v| (vec!["c15".to_string(), v.to_string()], 8)).collect(),
         _ => vec![],
     };
-    for (bi, (args, n)) in batches.iter().enumerate() {
-        let native = match run_native(ctx, args) {
-            Some(n) => n,
+    // the native twin first (also builds it), then the Miri batches, a few at a time
+    let mut natives: Vec<String> = vec![];
+    for (args, _) in &batches {
+        match run_native(ctx, args) {
+            Some(n) => natives.push(n),
             None => {
                 r.harness_error = Some(format!("native run of sim-miri {:?} failed", args));
                 return r;
             }
-        };
+        }
+    }
+    let outs: Vec<MiriOut> = {
+        let mut outs: Vec<Option<MiriOut>> = (0..batches.len()).map(|_| None).collect();
+        for chunk_start in (0..batches.len()).step_by(4) {
+            let chunk_end = (chunk_start + 4).min(batches.len());
+            let results: Vec<(usize, MiriOut)> = std::thread::scope(|s| {
+                let hs: Vec<_> = (chunk_start..chunk_end)
+                    .map(|bi| {
+                        let (args, n) = &batches[bi];
+                        let from = base + (bi as u64) * 16;
+                        s.spawn(move || (bi, run_miri(ctx, args, from, from + n)))
+                    })
+                    .collect();
+                hs.into_iter().map(|h| h.join().unwrap()).collect()
+            });
+            for (bi, o) in results {
+                outs[bi] = Some(o);
+            }
+        }
+        outs.into_iter().map(|o| o.unwrap()).collect()
+    };
+    for (bi, ((args, n), out)) in batches.iter().zip(outs.into_iter()).enumerate() {
+        let native = natives[bi].clone();
         let from = base + (bi as u64) * 16;
-        let out = run_miri(ctx, args, from, from + n);
         r.evaluations += out.results.len() as u64;
         r.steps += out.results.len() as u64;
         r.count("miri_seeds", *n);
